@@ -24,6 +24,7 @@ const (
 	NoHandler       HandlerMode = iota
 	HandlerKeep                 // returns the arguments unchanged
 	HandlerDropNext             // drops the next unconsumed argument (if any)
+	HandlerDropAll              // consumes every remaining argument: returns a nil slice
 	HandlerInsert               // puts the token "ins" in front
 	HandlerError                // returns an error
 )
@@ -383,6 +384,11 @@ func (m *clm) unknown(name string, inline *string, tok string, at int, cluster b
 		switch m.cfg.Handler {
 		case HandlerDropNext:
 			if len(m.args) > 0 {
+				_, i := m.pop()
+				m.fate(i, FDropped)
+			}
+		case HandlerDropAll:
+			for len(m.args) > 0 {
 				_, i := m.pop()
 				m.fate(i, FDropped)
 			}
